@@ -326,3 +326,22 @@ func VHValueIs(f *FSM, k, v []byte) bool {
 	defer closer.Close()
 	return bytes.Equal(got, v)
 }
+
+// VHArbCommand: see vhArbCommand (C03).
+func VHArbCommand(kinds, maxK int) *regattapb.Command { return vhArbCommand(kinds, maxK, false) }
+
+// VHPut writes a pair / the bookkeeping directly into the table's database (pre-state construction).
+func VHPut(f *FSM, k, v []byte) {
+	if err := f.pebble.Load().Set(vhEnc(k), v, pebble.NoSync); err != nil {
+		panic(err)
+	}
+}
+
+func VHSetIndexes(f *FSM, local, leader uint64) {
+	db := f.pebble.Load()
+	_ = db.Set(sysLocalIndex, vhU64(local), pebble.NoSync)
+	_ = db.Set(sysLeaderIndex, vhU64(leader), pebble.NoSync)
+}
+
+// VHContent reads the whole user content through the real range path.
+func VHContent(f *FSM) []*regattapb.KeyValue { return vhWhole(f).Kvs }
